@@ -106,8 +106,14 @@ SetAll(ra) == [repos EXCEPT ![CurRid] = ra]
 Frame(f, main) == [file |-> f, main |-> main, pc |-> IF main THEN "check" ELSE "ncache",
                    m |-> NoModel, todo |-> <<>>, gl |-> {}, left |-> {}, nc |-> FALSE]
 
-\* a model without file name is stored under an invented key
-Key(m) == IF models[m].nofile THEN "~" \o ToString(m.a) ELSE m.f
+\* A model without file name (model_from_str) that takes part in multi-file loading is
+\* stored under an invented key of its own: every such model has its own repository entry,
+\* which is removed when its load fails and stays (like the entry of a file) when it
+\* succeeds.  Clause StringModelsShareOneKey (vacuity runs only): one key for all of them,
+\* what update_model_in_repo_based_on_filename did before a9e9535.
+Key(m) == IF models[m].nofile
+          THEN (IF Force /\ "StringModelsShareOneKey" \in Listed THEN "~" ELSE "~" \o ToString(m.a))
+          ELSE m.f
 
 ----------------------------------------------------------------------------
 \* The file system: content of a file, with the scenario's fault while present
@@ -197,15 +203,11 @@ SummaryTg(incl, ms) ==
   UNION {{[m |-> x, i |-> i, to |-> ms[x].tg[i]] : i \in 1..Len(ms[x].tg)} : x \in incl}
 UsedRids == {sc.repo[l] : l \in {"A", "B"}} \ {"-"}
 
-\* Models without file name that earlier loads left in a repository are not reported
-\* (whether they stay there is not stated anywhere); the one of this load is.
 Summary(oc, rs, cur, rl, ms, ops) ==
-  LET shown(x) == ~(ms[x].nofile /\ x.a # Attempt)
-      incl == IF oc.ok THEN {x \in {rs[cur][g] : g \in DOMAIN rs[cur]} \cup {oc.model} : shown(x)} ELSE {} IN
+  LET incl == IF oc.ok THEN {rs[cur][g] : g \in DOMAIN rs[cur]} \cup {oc.model} ELSE {} IN
   [ res    |-> [ok |-> oc.ok, kind |-> oc.kind, file |-> oc.file, line |-> oc.line, col |-> oc.col,
                 model |-> oc.model],
-    grepo  |-> UNION {{[r |-> r, f |-> g, m |-> rs[r][g]] : g \in {h \in DOMAIN rs[r] : shown(rs[r][h])}}
-                      : r \in UsedRids},
+    grepo  |-> UNION {{[r |-> r, f |-> g, m |-> rs[r][g]] : g \in DOMAIN rs[r]} : r \in UsedRids},
     incl   |-> incl,
     local  |-> {[m |-> x, fs |-> rl[x]] : x \in incl},
     opens  |-> {[f |-> g, n |-> ops[g]] : g \in {h \in DOMAIN ops : ops[h] > 0}},
@@ -346,7 +348,7 @@ ImportNext ==
   /\ LET s   == Head(Top.todo)
          fr2 == [Top EXCEPT !.todo = Tail(@)]
          k   == Key(Top.m)
-         reg == IF k \in DOMAIN repoAll THEN repoAll ELSE (k :> Top.m) @@ repoAll
+         reg == IF k \in DOMAIN repoAll /\ repoAll[k] = Top.m THEN repoAll ELSE (k :> Top.m) @@ repoAll
      IN IF s = "*"
         THEN /\ stack' = WithTop([fr2 EXCEPT !.gl = Range(sc.glob)])
              /\ repos' = SetAll(reg) /\ UNCHANGED repoLocal
@@ -538,6 +540,11 @@ C17_Identity ==
     /\ \A m \in created : \A i \in 1..Len(models[m].tg) : \A t \in models[m].tg[i] :
           t.m = Builtin \/ t.m = m \/ (Key(t.m) \in DOMAIN LastAll /\ LastAll[Key(t.m)] = t.m)
     /\ \A m \in Incl : \A i \in 1..Len(models[m].tg) : models[m].tg[i] # {}
+\* C17/C18: whatever a global repository held before a load it still holds afterwards
+\* (file models and string models alike), whether the load succeeds or fails
+C17_CacheKept ==
+  JustLoaded =>
+    \A r \in Rids : \A g \in DOMAIN before[r] : g \in DOMAIN repos[r] /\ repos[r][g] = before[r][g]
 \* C17: a repeated load with a global repository returns the cached model, untouched
 C17_CacheSame ==
   JustLoaded /\ LastRid # "tmp" /\ LastOp.how # "str" /\ outcome.ok =>
